@@ -144,8 +144,10 @@ def check_dedup(ctx: Context, rep, rule: str) -> None:
                "`common`")
     rec = [c for c in mg.calls() if ctx.is_call(
         mg, c, "merge_shard_infos.merge_shard_infos")]
-    rep.ob(rule, len(rec) == 1 and ast.unparse(
-        ctx.arg(rec[0], 2, "common") or ast.Constant(0)) == "common + 1" and
+    from sa.norm import canon as _canon_m
+    rep.ob(rule, len(rec) == 1 and _canon_m(
+        mg, ctx.arg(rec[0], 2, "common") or ast.Constant(0)) in (
+            "common + 1", "1 + common") and
            ast.unparse(ctx.arg(rec[0], 1, "dataset_root") or ast.Constant(0))
            == "dataset_root", loc=mg.loc(rec[0]) if rec else mg.loc(),
            where=mg.qualname, construct=short(rec[0], 100) if rec else "<none>",
@@ -238,7 +240,8 @@ def check_load(ctx: Context, rep, rule: str) -> None:
     defs = Valuation(loc_fn, exists_atom, {}).defs
 
     def base_path(e):
-        e = defs.get(e.id, e) if isinstance(e, ast.Name) else e
+        from sa.norm import canon as _canon
+        e = ast.parse(_canon(loc_fn, e), mode="eval").body  # locals expanded
         for x in ast.walk(e):
             if isinstance(x, ast.BinOp) and isinstance(x.op, ast.Div):
                 return ast.unparse(x)
